@@ -1,0 +1,112 @@
+// SPDX-FileCopyrightText: 2022 Kalle Fagerberg
+//
+// SPDX-License-Identifier: MIT
+
+//go:build verif
+
+package sync2
+
+import (
+	"sync"
+	"sync/atomic"
+)
+
+// VerifScheduler is installed by the verification harness (build tag
+// "verif"). Every hook is called by the goroutine that is about to perform the
+// next atomic / mutex operation of the algorithm; a controlled scheduler parks
+// the goroutine there. With no scheduler installed the hooks do nothing.
+type VerifScheduler interface {
+	// Yield is called before a lock-free shared access (site names the access).
+	Yield(site string)
+	// Lock is called before mu.Lock(); Unlocked after mu.Unlock().
+	Lock(mu *sync.Mutex, site string)
+	Unlocked(mu *sync.Mutex)
+	// RWLock is called before mu.Lock() (write) or mu.RLock(); RWUnlocked after the matching unlock.
+	RWLock(mu *sync.RWMutex, write bool, site string)
+	RWUnlocked(mu *sync.RWMutex, write bool)
+}
+
+// VerifSched is the installed scheduler, or nil.
+var VerifSched VerifScheduler
+
+func verifYield(site string) {
+	if s := VerifSched; s != nil {
+		s.Yield(site)
+	}
+}
+
+func verifLock(mu *sync.Mutex, site string) {
+	if s := VerifSched; s != nil {
+		s.Lock(mu, site)
+	}
+}
+
+func verifUnlocked(mu *sync.Mutex) {
+	if s := VerifSched; s != nil {
+		s.Unlocked(mu)
+	}
+}
+
+func verifRWLock(mu *sync.RWMutex, write bool, site string) {
+	if s := VerifSched; s != nil {
+		s.RWLock(mu, write, site)
+	}
+}
+
+func verifRWUnlocked(mu *sync.RWMutex, write bool) {
+	if s := VerifSched; s != nil {
+		s.RWUnlocked(mu, write)
+	}
+}
+
+// VerifSnap is an identity-free projection of a Map's internal state for the
+// given keys, read while every other goroutine is parked.
+// R[i]: state of keys[i] in the read map: -9 absent, 0 nil, -1 expunged, else val(value).
+// D[i]: state in the dirty map: -9 absent, -8 the same entry as in read, else as R.
+type VerifSnap struct {
+	R, D     []int
+	Amended  bool
+	DirtyNil bool
+	Misses   int
+}
+
+func verifEntryState[V any](e *entry[V], val func(V) int) int {
+	p := atomic.LoadPointer(&e.p)
+	if p == nil {
+		return 0
+	}
+	if p == expunged {
+		return -1
+	}
+	return val(*(*V)(p))
+}
+
+// VerifSnapshot projects the state of m for keys; val maps a stored value to a positive int.
+func VerifSnapshot[K comparable, V any](m *Map[K, V], keys []K, val func(V) int) VerifSnap {
+	read, _ := m.read.Load().(readOnly[K, V])
+	s := VerifSnap{Amended: read.amended, DirtyNil: m.dirty == nil, Misses: m.misses}
+	for _, k := range keys {
+		re, rok := read.m[k]
+		if rok {
+			s.R = append(s.R, verifEntryState(re, val))
+		} else {
+			s.R = append(s.R, -9)
+		}
+		de, dok := m.dirty[k]
+		switch {
+		case !dok:
+			s.D = append(s.D, -9)
+		case rok && de == re:
+			s.D = append(s.D, -8)
+		default:
+			s.D = append(s.D, verifEntryState(de, val))
+		}
+	}
+	return s
+}
+
+// VerifSetMap exposes the Map behind a Set to the harness.
+func VerifSetMap[T comparable](s *Set[T]) *Map[T, struct{}] { return &s.m }
+
+// VerifKeyedMap exposes the Map behind a KeyedMutex to the harness.
+func VerifKeyedMap[T comparable](km *KeyedMutex[T]) *Map[T, *sync.Mutex] { return &km.m }
